@@ -307,7 +307,10 @@ def check(res: Result, dim, system, tier, only=None):
     res.sample({"sys": list(system), "shapes": [list(s) for s in SHAPES], "index_expressions_rank2": len(index_expressions((2, 2)))})
 
 
-HVALS = [(1.5, 0.75, 0.875, 2.5), (0.0, 0.0, 0.0, 0.0), (-0.0, 0.0, -0.0, 0.0), (0.75, 0.75, 0.75, 0.75)]
+HVALS = [(1.5, 0.75, 0.875, 2.5), (0.0, 0.0, 0.0, 0.0), (-0.0, 0.0, -0.0, 0.0), (0.75, 0.75, 0.75, 0.75),
+         # coordinates that are not Python floats: ints, NumPy integers, float32, a mixture (they are legal coordinates of an object)
+         (1, 2, 3, 4), (np.int64(1), np.int64(2), np.int64(3), np.int64(4)), (np.float32(1.5), np.float32(0.75), np.float32(0.875), np.float32(2.5)), (1, 0.75, 3, 2.5),
+         (np.int32(2), np.int32(1), np.int32(1), np.int32(5))]
 FORMS = (("obj.__array__()", lambda o: o.__array__()), ("numpy.asanyarray(obj)", lambda o: np.asanyarray(o)), ("numpy.asarray(obj)", lambda o: np.asarray(o)))
 
 
@@ -318,15 +321,15 @@ def check_object_history(res: Result, dim):
     states = [(s, f, v[:dim]) for s in L.SYSTEMS[dim] for f in ("generic", "momentum") for v in HVALS]
     for s1, f1, v1 in states:
         for s2, f2, v2 in states:
-            if tuple(v1) != tuple(v2):  # numerically equal tuples only (0.0 == -0.0): the colliding ones
-                continue
-            o1, o2 = B.make_obj(s1, f1, v1), B.make_obj(s2, f2, v2)
+            if tuple(v1) != tuple(v2) or [type(x) for x in v1] != [type(x) for x in v2] and not all(isinstance(x, float) for x in tuple(v1) + tuple(v2)):
+                continue  # numerically equal tuples only (0.0 == -0.0): the colliding ones; value kinds are not crossed
+            o1, o2 = L.build_object(B.OBJ_CLASS[(f1, dim)], s1, tuple(v1)), L.build_object(B.OBJ_CLASS[(f2, dim)], s2, tuple(v2))
             for expr, f in FORMS:
                 res.states += 1
                 res.evaluations += 1
                 res.transitions += 2
                 res.traces += 1
-                case = {"kind": "object_history", "dim": dim, "first": [list(s1), f1, list(v1)], "second": [list(s2), f2, list(v2)], "expr": expr}
+                case = {"kind": "object_history", "dim": dim, "first": [list(s1), f1, [float(x) for x in v1]], "second": [list(s2), f2, [float(x) for x in v2]], "value_kind": type(v2[0]).__name__, "expr": expr}
                 cls_key = f"object_history|{expr}|{dim}D|{L.sysname(s2)}|{f2}"
                 try:
                     f(o1)
@@ -337,12 +340,12 @@ def check_object_history(res: Result, dim):
                 want_cls = np.ndarray if expr == "numpy.asarray(obj)" else NPCLS[(f2, dim)]
                 names = L.field_names(s2)
                 rp = r.view(np.ndarray)
-                want = np.array([tuple(v2)], dtype=[(n, np.float64) for n in names])
+                want = np.array([tuple(float(x) for x in v2)], dtype=[(n, np.float64) for n in names])
                 if type(r) is not want_cls or rp.dtype.names != tuple(names) or rp.size != 1 or rp.reshape(-1).tobytes() != want.tobytes():
-                    res.violation(cls_key, f"after {expr} of {type(o1).__name__}{L.system_of(o1)}, {expr} of {type(o2).__name__}{L.system_of(o2)} is {type(r).__name__} {rp!r}; expected {want_cls.__name__} with fields {names} = {v2}", case)
+                    res.violation(cls_key, f"after {expr} of {type(o1).__name__}{L.system_of(o1)}, {expr} of {type(o2).__name__}{L.system_of(o2)} is {type(r).__name__} {rp!r}; expected {want_cls.__name__} with fields {names} = {tuple(float(x) for x in v2)}", case)
                     continue
                 res.nontrivial += 1
-    res.sample({"kind": "object_history", "dim": dim, "states": len(states), "value_tuples": [list(v[:dim]) for v in HVALS]})
+    res.sample({"kind": "object_history", "dim": dim, "states": len(states), "value_tuples": [[float(x) for x in v[:dim]] for v in HVALS], "value_kinds": sorted({type(v[0]).__name__ for v in HVALS})})
 
 
 def run_shard(shard, tier):
